@@ -106,9 +106,37 @@ def run_login(run, rng, pv, order, threshold, terminal, server_id, auth,
         io.half_close()
         io.drain(5.0)
 
+    # A third of the judged logins are reached through version negotiation
+    # (two allowed versions, a status query answered with `pv`), so that the
+    # login state machine is also exercised with whatever the status phase
+    # left behind in the connection object.
+    negotiated = rng.random() < 0.33
+    other_pv = 757 if pv != 757 else 340
+    stages = (['prior'] if prior else []) + \
+        (['status'] if negotiated else []) + ['judged']
+
+    def status_handler(io):
+        import json
+        from ..ref import core_packets as refp
+        hs = scripts.read_handshake(io)
+        io.recv_frame()
+        io.send_frame(0x00, refp.encode_field('string', json.dumps(
+            {'version': {'name': 'vf', 'protocol': pv}})))
+        io.half_close()
+        try:
+            io.wait_eof(5.0)
+        except mcserver.ScriptTimeout:
+            pass
+
     def handler(io):
-        if prior and io.index == 0:
+        stage = stages[io.index] if io.index < len(stages) else 'extra'
+        if stage == 'prior':
             return prior_handler(io)
+        if stage == 'status':
+            return status_handler(io)
+        if stage == 'extra':
+            state['errors'].append('unexpected extra connection')
+            return
         hs = scripts.read_handshake(io)
         state['handshake'] = hs
         f = io.recv_frame()
@@ -252,6 +280,7 @@ def run_login(run, rng, pv, order, threshold, terminal, server_id, auth,
             kw['auth_token'] = tok
         conn = pc.make_connection(server.port, rec, allowed_versions={pv},
                                   decoy=rng.random() < 0.3, **kw)
+        w['negotiated'] = negotiated
         if user_handler:
             from minecraft.networking.packets import clientbound, serverbound
 
@@ -297,6 +326,9 @@ def run_login(run, rng, pv, order, threshold, terminal, server_id, auth,
             del chat_gate[:]
             run.count('logins.second_connection_of_object')
         n_req0 = len(ygg.requests)
+        if negotiated:
+            conn.allowed_proto_versions = {pv, other_pv}
+            run.count('logins.negotiated')
         conn.connect()
         if not pc.wait_idle(conn, 25.0):
             return 'threads alive: ' + pc.dump_threads()
